@@ -357,7 +357,7 @@ Proof.
   - constructor; [intros []|constructor].
   - inversion Hnd; subst. constructor.
     + intro Hin. apply in_app_or in Hin. destruct Hin as [Hin|[Hin|[]]]; [contradiction|].
-      apply Hn. left. exact Hin.
+      apply Hn. left. symmetry. exact Hin.
     + apply IH; [assumption|]. intro Hin. apply Hn. right. exact Hin.
 Qed.
 
@@ -421,4 +421,44 @@ Proof.
   destruct (bytes_eqb k1 k) eqn:E; [discriminate|]. destruct Hin as [Hin|Hin].
   - inversion Hin; subst. rewrite bytes_eqb_refl in E. discriminate.
   - exact (IH G Hin).
+Qed.
+
+Lemma fold_edits_same : forall edits s0, same_history s0 (fold_left apply_edit edits s0).
+Proof.
+  induction edits as [|e es IH]; intro s0; cbn [fold_left]; [apply same_history_refl|].
+  eapply same_history_trans; [apply apply_edit_same|apply IH].
+Qed.
+
+(* the cross-reference stream dictionary written by the save carries the Prev of the new document's trailer *)
+Theorem inc_stream_trailer_prev : forall nd x p t content x1,
+  NoDup (map fst (d_trailer nd)) ->
+  xstream_parts nd x p = (t, content, x1) ->
+  dict_get t K_Prev = dict_get (d_trailer nd) K_Prev.
+Proof.
+  intros nd x p t content x1 Hnd H. unfold xstream_parts in H. cbv zeta in H.
+  inversion H; subst. clear H.
+  rewrite dict_get_set_other by (vm_compute; discriminate).
+  rewrite dict_get_swap_remove_other;
+    [|repeat apply dict_set_nodup; exact Hnd|vm_compute; discriminate].
+  rewrite !dict_get_set_other by (vm_compute; discriminate). reflexivity.
+Qed.
+
+(* Prev of the written section = the previous xref_start, both cross-reference styles, after any edits *)
+Theorem inc_save_prev_link : forall prev_bytes prev edits,
+  NoDup (map fst (d_trailer (xd_doc prev))) ->
+  let s := fold_left apply_edit edits (create_from prev_bytes prev) in
+  let nd := xd_doc (i_new s) in
+  dict_get (trailer_table nd) K_Prev = Some (OInt (Z.of_N (xd_start prev))) /\
+  forall x p t content x1, xstream_parts nd x p = (t, content, x1) ->
+                           dict_get t K_Prev = Some (OInt (Z.of_N (xd_start prev))).
+Proof.
+  intros prev_bytes prev edits Hnd s nd.
+  destruct (prev_view_unchanged prev_bytes prev edits) as (_ & _ & Hp & _). fold s in Hp. fold nd in Hp.
+  split.
+  - unfold nd. rewrite inc_table_trailer_prev. exact Hp.
+  - intros x p t content x1 H. rewrite (inc_stream_trailer_prev nd x p t content x1); [exact Hp| |exact H].
+    (* the trailer of the new document is the previous trailer with Prev set: unique keys are preserved *)
+    assert (Ht : d_trailer nd = d_trailer (xd_doc (new_from_prev prev))).
+    { destruct (fold_edits_same edits (create_from prev_bytes prev)) as (_ & _ & G3 & _). exact G3. }
+    rewrite Ht. unfold new_from_prev. cbn [xd_doc d_trailer]. apply dict_set_nodup. exact Hnd.
 Qed.
